@@ -66,6 +66,8 @@ type Enc struct {
 	leafInfo  map[string]leafReg
 	loopEpochs map[int]bool // heap epochs created by loop havocs
 	mergeEpochs map[int]*mergeEp
+	noLocksAtEntry bool
+	nsub      int
 	frameHook func(name string, t Term, sort string)
 }
 
@@ -327,7 +329,7 @@ func (e *Enc) version(name, sort string, ep int) Term {
 	// allocation mark of the moment the version came into being
 	if lv, isRef := e.refLeaf[name]; isRef {
 		if h, ok := e.epochHwm[ep]; ok {
-			e.addAxiom(rangeAxiom(t, lv, sort, "0", "", h.S))
+			e.addAxiom(rangeAxiom(t, lv, sort, "", "", h.S)) // sub-object references are negative
 		}
 	}
 	// slice/string headers and sized integers are in range
@@ -343,6 +345,9 @@ func (e *Enc) version(name, sort string, ep int) Term {
 				e.addAxiom(fmt.Sprintf("(forall ((x Int) (y Int)) (! (<= (select (select %s x) y) (select (select %s x) y)) :pattern ((select (select %s x) y))))", ln.S, t.S, t.S))
 			}
 		}
+	}
+	if ep == 0 && e.noLocksAtEntry && strings.HasPrefix(name, "LK_") && sort == SArr {
+		e.addAxiom(fmt.Sprintf("(forall ((x Int)) (! (= (select %s x) 0) :pattern ((select %s x))))", t.S, t.S))
 	}
 	// loop havoc: the loop frame relates this version to the entry version
 	if e.loopEpochs[ep] && e.frameHook != nil {
@@ -688,8 +693,34 @@ func (p *Place) field(idx int) *Place {
 		lo, _ := fieldRange(st, idx)
 		np.Lo = p.Lo + lo
 		np.Path = p.Path + "." + f.Name()
+	case PHeap:
+		// a nested struct of a named type inside a heap object is a sub-object with its own
+		// reference sub_<path>(obj): &x.f then is an ordinary *T pointer whose fields live in
+		// the same H_T.* arrays as those of separately allocated T objects
+		if named, ok := f.Type().(*types.Named); ok && curEnc != nil {
+			if _, isStruct := named.Underlying().(*types.Struct); isStruct {
+				return &Place{Kind: PHeap, Typ: f.Type(), Prefix: "H_" + typeKey(f.Type()), Obj: curEnc.subObj(p.Prefix+"."+f.Name(), p.Obj)}
+			}
+		}
+		np.Prefix = p.Prefix + "." + f.Name()
 	default:
 		np.Prefix = p.Prefix + "." + f.Name()
 	}
 	return &np
+}
+
+var curEnc *Enc
+
+// subObj: reference of the sub-object at field path `path` of object obj. Sub-object references
+// are negative, injective in obj, and distinct for distinct paths.
+func (e *Enc) subObj(path string, obj Term) Term {
+	fn := "sub_" + sanitize(path)
+	if _, ok := e.funs[fn]; !ok {
+		e.declareFun(fn, []string{"Int"}, "Int")
+		e.declareFun("inv_"+fn, []string{"Int"}, "Int")
+		e.declareFun("subtag", []string{"Int"}, "Int")
+		e.nsub++
+		e.addAxiom(fmt.Sprintf("(forall ((x Int)) (! (and (< (%s x) 0) (= (inv_%s (%s x)) x) (= (subtag (%s x)) %d)) :pattern ((%s x))))", fn, fn, fn, fn, e.nsub, fn))
+	}
+	return app(SInt, fn, obj)
 }
